@@ -4,25 +4,29 @@
 EXTENDS Naturals, Sequences, FiniteSets, TLC
 
 VARIABLES fin,       \* set of <<side, direction, mid>> whose Done report was delivered
-          seen       \* set of <<side, direction, mid>> with at least one report
+          seen,      \* set of <<side, direction, mid>> with at least one report
+          finc       \* ... whose Done report showed a complete message (Proposal.DataIsComplete, read by the consumer)
 
-vars == <<fin, seen>>
-Init == fin = {} /\ seen = {}
+vars == <<fin, seen, finc>>
+Init == fin = {} /\ seen = {} /\ finc = {}
 
 (* one call of UpdateStatus *)
-Status(side, dir, mid, transferred, total, isdone, csize) ==
+Status(side, dir, mid, transferred, total, isdone, csize, complete) ==
     LET k == <<side, dir, mid>> IN
     /\ k \notin fin                         \* no report after the final one
     /\ transferred >= 0 /\ transferred <= total
     /\ total = csize                        \* the total is the compressed size of that proposal
     /\ seen' = seen \cup {k}
     /\ fin' = IF isdone THEN fin \cup {k} ELSE fin
+    /\ finc' = IF isdone /\ complete THEN finc \cup {k} ELSE finc
 
 (* end of the exchange (after a grace period for the asynchronous final reports): *)
 (* exactly one Done report per transferred message and side                       *)
 End(sent, received) ==      \* sets of <<side, mid>>
     /\ \A x \in sent : <<x[1], "send", x[2]>> \in fin
     /\ \A x \in received : <<x[1], "recv", x[2]>> \in fin
+    /\ \A x \in received : <<x[1], "recv", x[2]>> \in finc      \* the final report of a received message shows it complete
+                                                               \* (Status.tla: FinalSeesResult)
     /\ \A k \in fin : (k[2] = "send" => <<k[1], k[3]>> \in sent) /\ (k[2] = "recv" => <<k[1], k[3]>> \in received)
     /\ UNCHANGED vars
 
